@@ -28,7 +28,7 @@ CFG = {
             "through NewStream(r,len)+Decode+second Decode and through DecodeBytes":
                 "corr WITH error kinds (Go vs the Go-shaped machine Model.RlpStream, line kind sdec) + proof stream_refines (machine = Model.Rlp.dec)",
             "Stream.Uint/Bool/Bytes/Raw/Kind on a fresh stream": "corr with error kinds (line kind sprim); refinement proved for uint/Bool "
-                "(stream_refines_typed_partial, stream_uint64_top: = Rlp.readUint/readBool of Model.RlpTyped on every ready state), not yet for Bytes/Raw", "rlp.EncodeToBytes of items": "corr (Go vs Model.Rlp.enc)",
+                "(stream_refines_typed_partial, stream_uint64_top: = Rlp.readUint/readBool of Model.RlpTyped on every ready state) and Bytes (stream_refines_typed_bytes, stream_bytes_top), not yet for Raw", "rlp.EncodeToBytes of items": "corr (Go vs Model.Rlp.enc)",
             "rlp.Split": "corr (Go vs readHead-based outSplit, line kind split)",
             "rlp/raw.go readKind/readSize/Split/SplitString/SplitList/CountValues":
                 "corr with error kinds and an explicit panic outcome (Go vs the Go-shaped Model.RlpRaw, line kinds rsplit / cv) + proofs split_total, countValues_total, "
@@ -58,7 +58,7 @@ META = {
             "encoder and strict decoder; stream_refines, stream_refines_reject, stream_refines_stream, stream_more_than_one_value (the Go-shaped rlp.Stream "
             "state machine with list-extent stack, input budget and sticky kinderr decodes into interface{} exactly what the strict decoder accepts, via "
             "DecodeBytes and via NewStream+Decode+EOF), alloc_bound (ghost sum of allocated buffer bytes <= input length, accepted or rejected), "
-            "stream_total, stream_invariant; split_spec, countValues_spec, dec_list_split, stream_refines_typed_partial, stream_uint64_top; split_total, countValues_total, raw_readKind_in_bounds (the Go-shaped model of raw.go with an explicit "
+            "stream_total, stream_invariant; split_spec, countValues_spec, dec_list_split, stream_refines_typed_partial, stream_uint64_top, stream_refines_typed_bytes, stream_bytes_top; split_total, countValues_total, raw_readKind_in_bounds (the Go-shaped model of raw.go with an explicit "
             "slice-bounds panic outcome never panics and CountValues terminates); typed_dec_enc, typed_enc_dec, typed_decoded_wf, typed_one_encoding_per_value, typed_enc_injective, "
             "typed_decode_total, typed_decode_consumes hold for the model of the reflection-driven typed decoders/writers over the whole type universe "
             "(uint, big, bool, bytes, [n]byte, slices, arrays, structs with tail, pointers, rlp:\"nil\" pointers, RawValue, interface{}), which covers "
